@@ -182,7 +182,8 @@ def discharge_rule(rep, prog, tier):
     rep.floor("reachable library functions", 100, len(fns))
     rep.floor("panic sites inventoried", 60, n_sites)
     if unsumm:
-        rep.violation("AI", "unsummarised:%s" % sorted(unsumm)[0], "analysis met unsummarised callees (dependent obligations are not trustworthy): %s" % sorted(unsumm)[:6])
+        from .common import unsummarised_policy
+        unsummarised_policy(rep, unsumm, "panic-site discharge runs")
     return fns, allocs
 
 
